@@ -5,6 +5,7 @@ package main
 //	close@k   the k-th close of a file opened for writing fails after losing half of the data (quota / NFS style)
 //	write@k   the k-th write request fails
 //	list@k    the k-th directory listing is refused (permission denied)
+//	stat@k    every stat request from the k-th on fails (general failure)
 //
 // Every delivered fault appends a line to SHIM_SFTP_FAULT_LOG.
 
@@ -25,6 +26,7 @@ type faultyFS struct {
 	closes int64
 	writes int64
 	lists  int64
+	stats  int64
 	log    string
 }
 
@@ -138,6 +140,10 @@ func (h *faultyFS) Filelist(r *sftp.Request) (sftp.ListerAt, error) {
 		}
 		return out, nil
 	case "Stat":
+		if n := atomic.AddInt64(&h.stats, 1); h.kind == "stat" && n >= h.k {
+			h.delivered(fmt.Sprintf("stat#%d %s", n, r.Filepath))
+			return nil, sftp.ErrSSHFxFailure
+		}
 		fi, err := os.Stat(r.Filepath)
 		if err != nil {
 			return nil, err
